@@ -374,3 +374,28 @@ def _utf8_valid(ex, args, ins, where):
         return True
     except UnicodeDecodeError:
         return False
+
+
+# ------------------------------------------------------------------ CRC-32 as an uninterpreted function (concrete fast path)
+@intrinsic('hash/crc32.Checksum')
+def _crc32_checksum(ex, args, ins, where):
+    els = ex.slice_elems(args[0])
+    if all(not is_sym(b) for b in els) or ex.pinned is not None:
+        # Castagnoli polynomial, bitwise
+        crc = 0xffffffff
+        for b in els:
+            crc ^= b
+            for _ in range(8):
+                crc = (crc >> 1) ^ (0x82f63b78 if crc & 1 else 0)
+        return crc ^ 0xffffffff
+    key = ('crc32c', len(els))
+    f = ex.uf_cache.get(key)
+    if f is None:
+        f = ex.uf_cache[key] = z3.Function('crc32c_%d' % len(els), z3.BitVecSort(8 * len(els)), z3.BitVecSort(32))
+    ex.cut_notes.add('hash-uf:crc32c')
+    return f(bytes_to_bv(els))
+
+
+@intrinsic('hash/crc32.MakeTable')
+def _crc32_table(ex, args, ins, where):
+    return Ptr(ex.new_obj(Opaque('crc32 table')), ())
